@@ -24,9 +24,127 @@ pub struct OptCfg {
     pub max_step_size: f64,
     pub seed: u64,
     pub convergence: Option<f64>,
+    /// Some(h): the builder is not configured once but lives through a history of setter calls
+    /// (derived from h and the settings above, see `history_calls`) whose last call per setting
+    /// carries the value above - a builder reused from run to run, as the CLI reuses its own
+    #[serde(default, skip_serializing_if = "Option::is_none")]
+    pub builder_history: Option<u64>,
+}
+
+#[derive(Clone, Debug)]
+pub enum BuilderCall {
+    Steps(u64),
+    Inner(u64),
+    KtStart(f64),
+    KtFinish(f64),
+    KtRatio(Option<f64>),
+    MaxStep(f64),
+    Seed(u64),
+    Conv(Option<f64>),
+    CloneIt,
+    Build,
 }
 
 impl OptCfg {
+    /// The setter calls of the builder's history, in order.  Per setting: zero or more earlier
+    /// values, then the configured one; the settings are interleaved at random, so a setting's
+    /// last call may be followed by any number of calls of the others.
+    pub fn history_calls(&self) -> Vec<BuilderCall> {
+        use BuilderCall::*;
+        let h = match self.builder_history {
+            None => return vec![],
+            Some(h) => h,
+        };
+        let mut rng = crate::common::rng_for(h, 7707);
+        let mut queues: Vec<Vec<BuilderCall>> = vec![];
+        let mut q = vec![];
+        for _ in 0..rng.gen_range(1, 4) {
+            q.push(Steps(match rng.gen_range(0, 5) {
+                0 => rng.gen_range(0, self.inner_steps.max(1)),
+                1 => 0,
+                2 => self.steps.saturating_add(rng.gen_range(1, 5000)),
+                3 => [1u64, 2, 20, 100][rng.gen_range(0, 4)],
+                _ => rng.gen_range(1, 5000),
+            }));
+        }
+        q.push(Steps(self.steps));
+        queues.push(q);
+        if rng.gen_bool(0.5) {
+            let mut q = vec![];
+            for _ in 0..rng.gen_range(0, 3) {
+                q.push(Inner([0u64, 1, 7, 1000, 100_000][rng.gen_range(0, 5)]));
+            }
+            q.push(Inner(self.inner_steps));
+            queues.push(q);
+        }
+        if rng.gen_bool(0.4) {
+            queues.push(vec![KtStart([0., 1e-3, 0.1, 50.][rng.gen_range(0, 4)]), KtStart(self.kt_start)]);
+        }
+        if let (Some(f), true) = (self.kt_finish, rng.gen_bool(0.4)) {
+            queues.push(vec![KtFinish([0., 1e-6, 5.][rng.gen_range(0, 3)]), KtFinish(f)]);
+        }
+        if rng.gen_bool(0.4) {
+            queues.push(vec![KtRatio([None, Some(0.), Some(0.3), Some(1.)][rng.gen_range(0, 4)]), KtRatio(self.kt_ratio)]);
+        }
+        if rng.gen_bool(0.4) {
+            queues.push(vec![MaxStep([0., 1e-5, 0.5, 1.][rng.gen_range(0, 4)]), MaxStep(self.max_step_size)]);
+        }
+        if rng.gen_bool(0.4) {
+            queues.push(vec![Seed(rng.gen()), Seed(self.seed)]);
+        }
+        if rng.gen_bool(0.4) {
+            queues.push(vec![Conv([None, Some(0.), Some(1e9)][rng.gen_range(0, 3)]), Conv(self.convergence)]);
+        }
+        let mut out = vec![];
+        while !queues.is_empty() {
+            let i = rng.gen_range(0, queues.len());
+            out.push(queues[i].remove(0));
+            if queues[i].is_empty() {
+                queues.remove(i);
+            }
+            match rng.gen_range(0, 8) {
+                0 => out.push(CloneIt),
+                1 => out.push(Build),
+                _ => {}
+            }
+        }
+        out
+    }
+    fn apply_history(&self, mut b: BuildOptimiser) -> BuildOptimiser {
+        for c in self.history_calls() {
+            match c {
+                BuilderCall::Steps(v) => {
+                    b.steps(v);
+                }
+                BuilderCall::Inner(v) => {
+                    b.inner_steps(v);
+                }
+                BuilderCall::KtStart(v) => {
+                    b.kt_start(v);
+                }
+                BuilderCall::KtFinish(v) => {
+                    b.kt_finish(v);
+                }
+                BuilderCall::KtRatio(v) => {
+                    b.kt_ratio(v);
+                }
+                BuilderCall::MaxStep(v) => {
+                    b.max_step_size(v);
+                }
+                BuilderCall::Seed(v) => {
+                    b.seed(v);
+                }
+                BuilderCall::Conv(v) => {
+                    b.convergence(v);
+                }
+                BuilderCall::CloneIt => b = b.clone(),
+                BuilderCall::Build => {
+                    let _ = b.build();
+                }
+            }
+        }
+        b
+    }
     /// Built through the CLI's own argument parser (the only way to leave kt_finish unset),
     /// then seeded.
     pub fn builder(&self) -> Result<BuildOptimiser, String> {
@@ -50,7 +168,7 @@ impl OptCfg {
         }
         let mut b = BuildOptimiser::from_iter_safe(args.iter()).map_err(|e| e.to_string())?;
         b.seed(self.seed);
-        Ok(b)
+        Ok(self.apply_history(b))
     }
     /// Same configuration through the builder methods (kt_finish cannot be unset this way)
     pub fn builder_api(&self) -> BuildOptimiser {
@@ -59,7 +177,7 @@ impl OptCfg {
         if let Some(f) = self.kt_finish {
             b.kt_finish(f);
         }
-        b
+        self.apply_history(b)
     }
     pub fn effective_inner(&self) -> u64 {
         self.inner_steps.min(self.steps)
@@ -275,6 +393,7 @@ pub fn rand_cfg<R: Rng>(rng: &mut R, kt_start: f64, max_steps: u64) -> OptCfg {
         max_step_size: if rng.gen_range(0, 12) == 0 { 10f64.powf(rng.gen_range(-17., -12.)) } else { 10f64.powf(rng.gen_range(-4., 0.)) },
         seed: rng.gen::<u32>() as u64,
         convergence: [None, None, Some(0.), Some(1e-6), Some(1.)][rng.gen_range(0, 5)],
+        builder_history: if rng.gen_range(0, 4) == 0 { Some(rng.gen::<u32>() as u64) } else { None },
     }
 }
 
